@@ -13,7 +13,9 @@
 // comes from yet another one, forked before the case's process has called the library.
 #include "common.hpp"
 #include "libphysica/Integration.hpp"
+#include "libphysica/Linear_Algebra.hpp"
 #include "libphysica/Statistics.hpp"
+#include <map>
 #include <random>
 #include <stdexcept>
 namespace libphysica
@@ -70,12 +72,36 @@ struct Rec
 struct Call
 {
 	std::string method;
+	int defaults = 0;	// 1: the method argument is left out, 2: the budget as well
 	unsigned int seed;
 	int ncall;
 	long throw_at = 0;	 // 0: never
-	std::vector<double> region;
+	int obj		  = -1;	 // >= 0: the caller's vector object of that number
+	std::vector<double> region;	  // the limits as written in the case
+	std::vector<double> own;	  // the vector object handed to the library when the call names none
 	std::shared_ptr<vh::FExpr> e;
 	std::string text;	// the tokens of the call, as read
+};
+static std::map<int, std::vector<double>> g_pool;	// the caller's region vectors of a case
+static std::vector<double>& region_object(Call& c)
+{
+	if(c.obj < 0)
+		return c.own;
+	auto it = g_pool.find(c.obj);
+	if(it == g_pool.end())
+		it = g_pool.emplace(c.obj, c.region).first;
+	return it->second;
+}
+static bool same_bits(const std::vector<double>& a, const std::vector<double>& b)
+{
+	return a.size() == b.size() && (a.empty() || std::memcmp(a.data(), b.data(), a.size() * sizeof(double)) == 0);
+}
+struct Outcome
+{
+	double value = 0.0;
+	bool aborted = false;
+	long during	 = 0;	// evaluations at which the caller's region vector was not what the caller had put into it
+	long after	 = 0;	// 1: it is not after the call
 };
 struct IntegrandGaveUp : public std::runtime_error
 {
@@ -86,18 +112,30 @@ static Call read_call(vh::Reader& r)
 	Call c;
 	size_t first = r.i;
 	c.method	 = r.word();
-	size_t bang	 = c.method.find('!');
+	size_t at	 = c.method.find('@');
+	if(at != std::string::npos)
+	{
+		c.obj	 = (int) std::strtol(c.method.c_str() + at + 1, nullptr, 10);
+		c.method = c.method.substr(0, at);
+	}
+	size_t bang = c.method.find('!');
 	if(bang != std::string::npos)
 	{
 		c.throw_at = std::strtol(c.method.c_str() + bang + 1, nullptr, 10);
 		c.method   = c.method.substr(0, bang);
+	}
+	if(c.method == "dflt" || c.method == "dflt2")
+	{
+		c.defaults = c.method == "dflt" ? 1 : 2;
+		c.method   = "Vegas";
 	}
 	c.seed = (unsigned int) r.integer();
 	c.ncall	 = (int) r.integer();
 	long dim = r.integer();
 	for(long k = 0; k < 2 * dim; k++)
 		c.region.push_back(r.num());
-	c.e = vh::parse_fexpr(r);
+	c.own = c.region;
+	c.e	  = vh::parse_fexpr(r);
 	for(size_t k = first; k < r.i; k++)
 		c.text += (k > first ? " " : "") + r.t[k];
 	return c;
@@ -107,33 +145,45 @@ static void set_seed(unsigned int seed)
 	verif::mc_seed_set = true;
 	verif::mc_seed	   = seed;
 }
-// runs the call; *aborted says whether the integrand's exception came out of Integrate_MC (the value returned is then meaningless)
-static double run_call(Call& c, Rec* rec, bool* aborted = nullptr)
+// runs the call (an exception of the integrand that comes out of Integrate_MC: aborted, the value is then meaningless);
+// inner: a factor the integrand computes at every evaluation (an integration of its own)
+static Outcome run_call(Call& c, Rec* rec, const std::function<double()>* inner = nullptr)
 {
-	long count													= 0;
+	Outcome q;
+	long count					= 0;
+	std::vector<double>& region = region_object(c);
 	std::function<double(std::vector<double>&, const double)> f = [&](std::vector<double>& args, const double) {
 		double v[10] = {0, 0, 0, 0, 0, 0, 0, 0, 0, 0};
 		for(size_t k = 0; k < args.size() && k < 10; k++)
 			v[k] = args[k];
 		if(rec)
 			rec->point(v, (int) (c.region.size() / 2));	  // Vegas passes its static work vector of size MXDIM = 10; only the first ndim entries are the point
+		if(!same_bits(region, c.region))
+			q.during++;
 		if(++count == c.throw_at)
 			throw IntegrandGaveUp();
-		return vh::eval_fexpr(*c.e, v);
+		double val = vh::eval_fexpr(*c.e, v);
+		if(inner)
+			val *= (*inner)();
+		return val;
 	};
 	set_seed(c.seed);
-	if(aborted)
-		*aborted = false;
 	try
 	{
-		return Integrate_MC(f, c.region, c.ncall, c.method);
+		if(c.defaults == 2)
+			q.value = Integrate_MC(f, region);
+		else if(c.defaults == 1)
+			q.value = Integrate_MC(f, region, c.ncall);
+		else
+			q.value = Integrate_MC(f, region, c.ncall, c.method);
 	}
 	catch(const IntegrandGaveUp&)
 	{
-		if(aborted)
-			*aborted = true;
-		return std::nan("");
+		q.aborted = true;
+		q.value	  = std::nan("");
 	}
+	q.after = same_bits(region, c.region) ? 0 : 1;
+	return q;
 }
 
 // ---------- fresh processes ----------
@@ -168,9 +218,8 @@ static std::string in_fresh_process(Call& c)
 	if(pid == 0)
 	{
 		close(pfd[0]);
-		bool ab		  = false;
-		double v	  = run_call(c, nullptr, &ab);
-		std::string t = format_value(v, ab);
+		Outcome q	  = run_call(c, nullptr);
+		std::string t = format_value(q.value, q.aborted);
 		if(write(pfd[1], t.c_str(), t.size()) != (ssize_t) t.size()) {}
 		_exit(0);
 	}
@@ -325,13 +374,14 @@ static void handler(vh::Reader& r, vh::Out& o)
 	{
 		Call c = read_call(r);
 		Rec rec;
-		bool ab	 = false;
-		double v = run_call(c, &rec, &ab);
-		if(ab)
+		Outcome q = run_call(c, &rec);
+		if(q.aborted)
 			o.w("ABORTED");
 		else
-			o.f(v);
+			o.f(q.value);
 		rec.put(o, (int) (c.region.size() / 2));
+		o.i(q.during);
+		o.i(q.after);
 	}
 	else if(op == "hist")
 	{
@@ -339,20 +389,58 @@ static void handler(vh::Reader& r, vh::Out& o)
 		std::vector<Call> hs;
 		for(long k = 0; k < nh; k++)
 			hs.push_back(read_call(r));
-		Call c	 = read_call(r);
+		Call c = read_call(r);
 		o.w(in_fresh_process(c));	// first: this process has not called the library yet
-		double a	 = run_call(c, nullptr);
+		long nmod	  = 0;
+		Outcome a	  = run_call(c, nullptr);
+		nmod += (a.during > 0) + a.after;
 		long naborted = 0;
 		for(auto& h : hs)
 		{
-			bool ab = false;
-			run_call(h, nullptr, &ab);
-			naborted += ab ? 1 : 0;
+			Outcome q = run_call(h, nullptr);
+			naborted += q.aborted ? 1 : 0;
+			nmod += (q.during > 0) + q.after;
 		}
-		double b = run_call(c, nullptr);
-		o.f(a);
-		o.f(b);
+		Outcome b = run_call(c, nullptr);
+		nmod += (b.during > 0) + b.after;
+		o.f(a.value);
+		o.f(b.value);
 		o.i(naborted);
+		o.i(nmod);
+	}
+	else if(op == "nested")
+	{
+		long shared = r.integer();
+		Call outer	= read_call(r);
+		Call inner	= read_call(r);
+		if(shared)
+			outer.obj = inner.obj = 0;	 // one box, built once by the caller
+		std::string fresh = in_fresh_process(inner);
+		long ninner = 0, ndiff = 0, nmod = 0;
+		double worst = std::nan("");
+		std::function<double()> innerf = [&]() {
+			Outcome q = run_call(inner, nullptr);
+			ninner++;
+			nmod += (q.during > 0) + q.after;
+			if(format_value(q.value, q.aborted) != fresh)
+			{
+				if(ndiff == 0)
+					worst = q.value;
+				ndiff++;
+			}
+			return q.value;
+		};
+		Outcome q = run_call(outer, nullptr, &innerf);
+		nmod += (q.during > 0) + q.after;
+		o.w(fresh);
+		o.f(q.value);
+		o.i(ninner);
+		o.i(ndiff);
+		if(ndiff == 0)
+			o.w(fresh);
+		else
+			o.f(worst);
+		o.i(nmod);
 	}
 	else if(op == "front2d" || op == "front3d")
 	{
@@ -385,6 +473,27 @@ static void handler(vh::Reader& r, vh::Out& o)
 			o.f(Integrate_3D(f, x1, x2, y1, y2, z1, z2, method, p));
 			rec.put(o, 3);
 		}
+	}
+	else if(op == "front3s")
+	{
+		std::string method = r.word();
+		unsigned int seed  = (unsigned int) r.integer();
+		int p			   = (int) r.integer();
+		double lim[6]	   = {r.num(), r.num(), r.num(), r.num(), r.num(), r.num()};
+		auto e			   = vh::parse_fexpr(r);
+		Rec rec;
+		set_seed(seed);
+		std::function<double(Vector)> f = [&](Vector w) {
+			double v[10] = {w[0], w[1], w[2], 0, 0, 0, 0, 0, 0, 0};
+			rec.point(v, 3);
+			double nrm = std::sqrt(v[0] * v[0] + v[1] * v[1] + v[2] * v[2]);
+			rec.see(3, nrm);
+			if(nrm > 0.0)
+				rec.see(4, v[2] / nrm);
+			return vh::eval_fexpr(*e, v);
+		};
+		o.f(Integrate_3D(f, lim[0], lim[1], lim[2], lim[3], lim[4], lim[5], method, p));
+		rec.put(o, 5);
 	}
 	else
 		o.w("HARNESSERR unknown_op");
